@@ -1076,7 +1076,16 @@ def force_map_bodies(g, ir):
     if not enums:
         return
     e_ref = enums[0].ref()
-    shapes = [irb.map_(irb.prim("STRING"), e_ref), irb.map_(irb.prim("BEARERTOKEN"), e_ref), irb.lst(irb.map_(irb.prim("STRING"), e_ref)),
+    # a union whose declared variants are all safe is still not safe (it may hold an unknown variant)
+    from gen import TDef
+    if "VerifSafeUnion" not in g.by_name:
+        u = TDef("union", "VerifSafeUnion", g.p.packages[0])
+        u.fields = [("code", irb.prim("INTEGER"), "SAFE"), ("label", irb.prim("STRING"), "SAFE"), ("kind", e_ref, None)]
+        g.types.append(u)
+        g.by_name[u.name] = u
+        ir["types"].append(u.to_ir())
+    u_ref = g.by_name["VerifSafeUnion"].ref()
+    shapes = [irb.map_(irb.prim("STRING"), e_ref), u_ref, irb.map_(irb.prim("BEARERTOKEN"), e_ref), irb.lst(u_ref), irb.lst(irb.map_(irb.prim("STRING"), e_ref)),
               irb.opt(irb.map_(irb.prim("INTEGER"), e_ref))]
     k = 0
     for s in ir["services"]:
